@@ -50,6 +50,9 @@ pub struct Item {
     pub entries: BTreeSet<usize>,
     /// validly signed by the owner and addressed to the family's key
     pub authentic: bool,
+    /// a valid record of *another kind* that lives under the same record key (a scratchpad and a transaction set of
+    /// one owner share their key): offered only once something of the family's kind is held, and must change nothing
+    pub alien: bool,
 }
 
 pub struct Fam {
@@ -78,6 +81,7 @@ pub fn scratchpad_family() -> Fam {
                 counter: Some(c),
                 entries: BTreeSet::new(),
                 authentic,
+                alien: false,
             });
         }
         // a validly signed pad of ANOTHER owner presented under this key
@@ -96,6 +100,26 @@ pub fn scratchpad_family() -> Fam {
             counter: Some(c),
             entries: BTreeSet::new(),
             authentic: false,
+            alien: false,
+        });
+    }
+    // a valid transaction of the same owner: its address hashes the same public key, so it arrives under this very key
+    let t = rec::tx(OWNER, 9, OWNER);
+    if rec::tx_key(&t) == key {
+        let t2 = t.clone();
+        let k2 = key.clone();
+        items.push(Item {
+            name: "transaction-of-the-same-owner".into(),
+            plain: rec::txs_record(key.clone(), &[t]),
+            paid: Some(Arc::new(move |pr: &ant_evm::ProofOfPayment| {
+                let mut r = rec::paid_tx_record(pr, &t2);
+                r.key = k2.clone();
+                r
+            })),
+            counter: None,
+            entries: BTreeSet::new(),
+            authentic: false,
+            alien: true,
         });
     }
     Fam { family: Family::Scratchpad, key, items }
@@ -135,6 +159,26 @@ pub fn transaction_family() -> Fam {
             counter: None,
             entries: valid.clone(),
             authentic: !valid.is_empty(),
+            alien: false,
+        });
+    }
+    // a valid scratchpad of the same owner: its address hashes the same public key, so it arrives under this very key
+    let p = rec::pad(OWNER, 5, b"pad of the same owner", OWNER);
+    if rec::pad_key(&p) == key {
+        let p2 = p.clone();
+        let k2 = key.clone();
+        items.push(Item {
+            name: "scratchpad-of-the-same-owner(c=5)".into(),
+            plain: rec::pad_record(&p),
+            paid: Some(Arc::new(move |pr: &ant_evm::ProofOfPayment| {
+                let mut r = rec::paid_pad_record(pr, &p2);
+                r.key = k2.clone();
+                r
+            })),
+            counter: None,
+            entries: BTreeSet::new(),
+            authentic: false,
+            alien: true,
         });
     }
     Fam { family: Family::Transaction, key, items }
@@ -155,6 +199,7 @@ pub fn register_family() -> Fam {
             counter: None,
             entries: idx.iter().cloned().collect(),
             authentic: true,
+            alien: false,
         });
     }
     // a register whose owner signature is invalid (base signed by another key), carrying op 2
@@ -175,6 +220,7 @@ pub fn register_family() -> Fam {
         counter: None,
         entries: BTreeSet::from([2]),
         authentic: false,
+        alien: false,
     });
     Fam { family: Family::Register, key, items }
 }
@@ -348,8 +394,11 @@ impl System for SeqSys {
                 if path == Path::Paid && it.paid.is_none() {
                     continue;
                 }
-                if path == Path::Unpaid && self.fam.family == Family::Transaction {
+                if path == Path::Unpaid && self.fam.family == Family::Transaction && !it.alien {
                     continue; // there is no unpaid transaction upload
+                }
+                if it.alien && (self.last == Held::Nothing || (path == Path::Unpaid && self.fam.family == Family::Scratchpad)) {
+                    continue; // a record of the other kind is only offered against something already held (on an empty node it is simply a valid upload)
                 }
                 v.push(Deliver { item: i, name: it.name.clone(), path });
             }
@@ -533,7 +582,7 @@ pub fn main(tier: Option<&str>) {
     let run = Run::new("C07", "model_checking", tier);
     run.rule(
         "(seq) BFS, replay mode: deliveries of every item of a family (scratchpads: counters 1..3 x {owner-signed, other key, unsigned, foreign \
-         owner under this key}; transactions: every vector of <=2 distinct entries (both orders) of a 5-entry pool incl. badly signed and foreign; registers: all 8 op subsets + forged \
+         owner under this key}; transactions: every vector of <=2 distinct entries (both orders) of a 5-entry pool incl. badly signed and foreign; registers: all 8 op subsets + forged; plus, against held content, a valid record of the *other* kind that shares the key (a scratchpad and a transaction set of one owner hash the same public key) \
          base) via {replication, unpaid update, paid upload} to one real Node, each run to quiescence; state = (held value, reference). \
          (conc) every ordered pair of authentic single deliveries to one key, with and without prior content, both futures live: \
          stateless DFS over all interleavings of future polls / command handling / write and notification tasks with <=1(2) deviations from FIFO.",
